@@ -88,7 +88,7 @@ func NewUDP(o UDPOptions) (*UDPWorld, error) {
 	u.Pkt = &upstream.Packet{Address: addr.MustParseAddress(fmt.Sprintf("udp://%s127.0.0.1:%d", cred(o.ClientSecret), sport))}
 	front := &udpFront{Packet: u.Pkt, u: u, pc: cpc}
 	w.Front = &Front{W: w, Kind: "udp", Host: o.Host}
-	w.Ups = &upstream.Upstreams{Data: []upstream.Upstream{front}, MustSecure: o.MustSecure}
+	w.Ups = ClientUpstreams([]upstream.Upstream{front}, o.MustSecure, o.Insecure)
 	return u, nil
 }
 
